@@ -318,7 +318,7 @@ Definition process_segment (t : tcb) (s : segment) : result (tcb * psr) :=
   (* stage 1: sequence check *)
   let seq_bad :=
     match st t with
-    | SynSent | Closing => false
+    | SynSent => false
     | _ => negb (is_seq_ok t text_len (h_seq h) (c_syn (h_ctl h)) (c_fin (h_ctl h)))
     end in
   if seq_bad then Ok (enqueue t (ack_hdr t), PDiscard) else
@@ -470,7 +470,8 @@ Definition tcb_segments (t : tcb) : result (tcb * list segment) :=
     let out1 := map t_seg (filter t_needs (retx t1)) in
     let t2 := set_retx t1 (map (fun tx => mkTx (t_seg tx) false) (retx t1)) in
     let out := out0 ++ out1 in
-    let t3 := match out with [] => t2 | _ => set_rto t2 RTO end in
+    (* the timer restarts only when a retransmittable segment went out *)
+    let t3 := match out1 with [] => t2 | _ => set_rto t2 RTO end in
     Ok (t3, out)
   | Err e => Err e | Panic p => Panic p | OutOfFuel => OutOfFuel
   end.
